@@ -273,6 +273,14 @@ func GenLeaf(r *rand.Rand, co *Corpus, kind string) *Q {
 		return &Q{Kind: "term", Field: tf, Term: v.AnyWord(r)}
 	case "kwterm":
 		return &Q{Kind: "term", Field: "k", Term: v.AnyWord(r)}
+	case "idterm":
+		// a term that occurs in exactly one document, once, in a field without positions (segments written
+		// by a merge store such terms in a compact form of their own)
+		id := fmt.Sprintf("k%d", r.Intn(8))
+		if co != nil && co.Final != nil && len(co.Final.Docs) > 0 && r.Intn(4) != 0 {
+			id = co.Final.Docs[r.Intn(len(co.Final.Docs))].ID
+		}
+		return &Q{Kind: "term", Field: "_id", Term: id}
 	case "match":
 		n := r.Intn(4)
 		s := ""
